@@ -127,3 +127,19 @@ Proof.
     destruct (do_pathop sk OpIntersection _) as [[q|]|e]; try discriminate.
     destruct q as [|c q]; [discriminate|]. intro H. injection H as <-. right. cbn [with_geom s_d]. discriminate.
 Qed.
+
+(* ... for the whole document: every shape of the clipped list is one of the source shapes, untouched, or carries geometry *)
+Theorem clip_shapes_nonempty (sk : @skia ROps) (vb : Rct) (l out : list shapeR) :
+  clip_shapes RMath sk vb l = Ok out -> Forall (fun s' => In s' l \/ s_d s' <> []) out.
+Proof.
+  revert out. induction l as [|sh r IH]; intros out; cbn [clip_shapes].
+  - intro H. injection H as <-. constructor.
+  - destruct (clip_shape RMath sk vb sh) as [o|e] eqn:E; [|discriminate].
+    destruct (clip_shapes RMath sk vb r) as [t|e]; [|discriminate].
+    intro H. injection H as <-.
+    assert (Ht : Forall (fun s' => In s' (sh :: r) \/ s_d s' <> []) t).
+    { eapply Forall_impl; [|apply IH; reflexivity]. intros a [Ha|Ha]; [left; right; exact Ha|right; exact Ha]. }
+    destruct o as [s'|]; [|exact Ht].
+    constructor; [|exact Ht].
+    destruct (clip_shape_kept_nonempty sk vb sh s' E) as [->|Hn]; [left; left; reflexivity|right; exact Hn].
+Qed.
